@@ -615,6 +615,17 @@ def r8_remembered_subdir_is_current(repo=None, rid="C04.R8"):
               and c.args[1].path() == sp for c in n.ast.calls(("strcpy", "strncpy", "snprintf")))]
     stores += [n for n in hg.nodes if n.kind == "stmt" and n.ast is not None and n.ast.kind == "BinaryOperator" and n.ast.opcode == "="
                and n.ast.children[0].path() == field and n.ast.children[1].calls(("strdup",))]
+    # or through a temporary: strcpy(tmp, subdir) ... sub_directory = tmp (a strdup-like helper, inlined)
+    for n in hg.nodes:
+        if n.kind == "stmt" and n.ast is not None and n.ast.kind == "BinaryOperator" and n.ast.opcode == "=" \
+                and n.ast.children[0].path() == field:
+            src_ = n.ast.children[1].strip(casts=True).path()
+            if src_ and "->" not in src_:
+                fills = [x.id for x in hg.nodes if x.ast is not None and any(
+                    c.args and c.args[0].path() == src_ and len(c.args) > 1 and c.args[1].path() == sp
+                    for c in x.ast.calls(("strcpy", "strncpy", "snprintf")))]
+                if fills and n.id not in hg.reach([hg.entry.id], avoid=fills):
+                    stores.append(n)
     if not stores:
         raise AnalysisError("%s: store of `%s` into sub_directory not found" % (H, sp))
     okret = [n for n in hg.nodes if n.kind == "return" and n.ast.children and n.ast.children[0].intval() == 0]
